@@ -220,6 +220,9 @@ def make_tuple(args, pools, rng):
                 # length-like scalars are tied to the extents of the arrays they bound (as every caller does);
                 # the remaining 20% (and the guard pages) probe the boundary
                 vals[a["name"]] = rng.choice(arrlens + [max(x - 1, 0) for x in arrlens])
+            elif "length" in nm or nm.startswith("len"):
+                # a length is never negative (precondition of every kernel; C and Python division differ below zero)
+                vals[a["name"]] = rng.choice(lens) if rng.random() < 0.85 else rng.choice([4, 5, 7])
             else:
                 vals[a["name"]] = rng.choice(lens) if rng.random() < 0.85 else rng.choice([-1, 4, 5, 7])
     return vals
